@@ -1,5 +1,6 @@
 """C04 Envelope, control-number and counter checks are exact."""
 import ast
+import itertools
 
 from ..core import Ob, Rule, AnalysisError, norm, KeyMaker
 from ..cfg import path_of
@@ -291,6 +292,39 @@ def r1_wiring(ctx):
                  '' if type_ok else "no `self.loops[-1][0] != '%s'` test" % htype)
         yield Ob(key + ' control number %s compared with the open header' % id_ref, id_ok, W(rfn, arm),
                  '' if id_ok else 'no `self.loops[-1][1] != %s` test' % id_ref)
+        # the mismatch is reported for EVERY pair of different counts: the whole condition that guards the report
+        # (and the conditions around it inside the branch) is evaluated over declared x counted, the declared count
+        # being None when it is not a number
+        if cnt_ok:
+            for c in arm.compares:
+                if len(c.ops) != 1 or not isinstance(c.ops[0], ast.NotEq):
+                    continue
+                sides = [c.left, c.comparators[0]]
+                if not any(arm.refdes_of(s_) == cnt_ref for s_ in sides):
+                    continue
+                decl = [s_ for s_ in sides if arm.refdes_of(s_) == cnt_ref][0]
+                other = [s_ for s_ in sides if s_ is not decl][0]
+                if A.canon(other) != cnt_expr:
+                    continue
+                ifn = A.enclosing(c, (ast.If,))
+                tab = {ast.unparse(arm.resolve(decl)): 'DECL', ast.unparse(decl): 'DECL', ast.unparse(other): 'CNT'}
+                conds = [(ifn.test, True)] + [(t_, pol) for t_, pol in A.path_condition(ifn, rfn)
+                                              if any(x is t_ for b_ in arm.body for x in ast.walk(b_))]
+                bad = []
+                for d_, k_ in itertools.product((None, 0, 1, 2, 3), (0, 1, 2)):
+                    try:
+                        got = True
+                        for t_, pol in conds:
+                            e_ = A.abstract(t_, tab)
+                            if not A.free_paths(e_) <= {'DECL', 'CNT'}:
+                                continue
+                            got = got and (bool(A.ev(e_, {'DECL': d_, 'CNT': k_})) == pol)
+                    except (A.NotClosed, TypeError):
+                        raise AnalysisError('%s: count condition cannot be evaluated: %s' % (key, norm(ifn.test)))
+                    if got != (d_ != k_):
+                        bad.append('declared %r, counted %d: %s' % (d_, k_, 'reported' if got else 'not reported'))
+                yield Ob(key + ' a count mismatch is reported for every pair of different counts', not bad, ctx.floc(rfn, ifn),
+                         '' if not bad else 'condition `%s`: %s' % (norm(ifn.test), bad[0]), detail={'evaluated': 15})
         yield Ob(key + ' declared count %s compared with %s' % (cnt_ref, cnt_expr), cnt_ok, W(rfn, arm),
                  '' if cnt_ok else 'no `self._int(%s) != %s` test; comparisons: %s' % (cnt_ref, cnt_expr, [norm(c) for c in arm.compares][:4]))
         sinks = {e[0] for e in arm.errors}
